@@ -418,7 +418,7 @@ func parent(ck *Check, tier string, seed int64) {
 			defer wg.Done()
 			out := filepath.Join(tmp, fmt.Sprintf("shard%d.json", i))
 			cmd := exec.Command(self, ck.ID, "--tier", tier, "--shard", fmt.Sprintf("%d/%d", i, n), "--out", out)
-			cmd.Env = append(os.Environ(), "GOMAXPROCS=1", "GOGC=800")
+			cmd.Env = append(os.Environ(), "GOMAXPROCS=1", "GOGC=800", "GOMEMLIMIT=3GiB")
 			if ck.Race {
 				// reports go to a file the worker reads back after every execution, so that
 				// each race is tied to the schedule that showed it and exploration goes on
@@ -783,7 +783,7 @@ func replayMain(args []string) {
 			self, _ := os.Executable()
 			cmd := exec.Command(self, append([]string{"replay"}, args...)...)
 			rl := filepath.Join(dir, "race")
-			cmd.Env = append(os.Environ(), "GOMAXPROCS=1", "GOGC=800", "GORACE=halt_on_error=0 exitcode=0 log_path="+rl, "VERIF_RACE_LOG="+rl)
+			cmd.Env = append(os.Environ(), "GOMAXPROCS=1", "GOGC=800", "GOMEMLIMIT=3GiB", "GORACE=halt_on_error=0 exitcode=0 log_path="+rl, "VERIF_RACE_LOG="+rl)
 			var buf strings.Builder
 			cmd.Stdout, cmd.Stderr = &buf, &buf
 			err = cmd.Run()
